@@ -93,8 +93,8 @@ def encodeOptionValue (bufLen : Nat) (piv : Bytes) (kidctx kid : Option Bytes) :
   let step2 : R (Nat × Bytes) :=
     match kc with
     | some c =>
-      if 1 + buf1.length + 1 + c.length > bufLen then R.oob
-      else if c.length ≥ 256 then R.oob   -- bytes beyond the (uint8_t) copy are uninitialised
+      -- fix d0cffe1: `if (length > 255 || offset + 1 + length > option_buf_len) return 0;`
+      if c.length > 255 ∨ 1 + buf1.length + 1 + c.length > bufLen then R.rej
       else R.ok (f1 ||| 0x10, buf1 ++ (UInt8.ofNat (c.length % 256) :: c))
     | none => R.ok (f1, buf1)
   match step2 with
@@ -103,7 +103,7 @@ def encodeOptionValue (bufLen : Nat) (piv : Bytes) (kidctx kid : Option Bytes) :
   | R.ok (f2, buf2) =>
     let step3 : R (Nat × Bytes) :=
       match kid with
-      | some k => if 1 + buf2.length + k.length > bufLen then R.oob else R.ok (f2 ||| 0x08, buf2 ++ k)
+      | some k => if 1 + buf2.length + k.length > bufLen then R.rej else R.ok (f2 ||| 0x08, buf2 ++ k)
       | none => R.ok (f2, buf2)
     match step3 with
     | R.oob => R.oob
